@@ -125,8 +125,10 @@ class Environment(DataStoreMixin):
 
     """
 
-    def __init__(self, factory=ObjectFactory(), store=None, source=None, sink=None):
-        self.factory = factory
+    def __init__(self, factory=None, store=None, source=None, sink=None):
+        # (a factory of its own: a default value in the signature would be one
+        # object shared by every environment created without a factory)
+        self.factory = factory if factory is not None else ObjectFactory()
         self.source = CompositeDataSource()
         if store:
             self.source.add_data_source(store.source)
